@@ -323,6 +323,14 @@ func checkMatchStyleAll(s *Segment) (bind string, capture int, ok bool) {
 
 	bind = s.Elements[0].BindParameters.Parameters[0].Ident
 
+	// Any other parameter is an option of the match all (e.g. "capture"). One with a
+	// regex value would declare a second bind that is never matched nor captured.
+	for _, p := range s.Elements[0].BindParameters.Parameters[1:] {
+		if p.Value.Regex != nil {
+			return "", 0, false
+		}
+	}
+
 	if len(s.Elements[0].BindParameters.Parameters) > 1 &&
 		s.Elements[0].BindParameters.Parameters[1].Ident == "capture" &&
 		s.Elements[0].BindParameters.Parameters[1].Value.Literal != nil {
